@@ -24,6 +24,8 @@ import Pandora.Proofs.C15Post
 import Pandora.Proofs.C15Next
 import Pandora.Proofs.C15Lock
 import Pandora.Bridge.C15Scen
+import Pandora.Proofs.C15Flow
+import Pandora.Bridge.C15Flow
 
 namespace Pandora.Props.C15
 open Pandora.Model.C15 Pandora.Spec.C15 Pandora.Proofs.C15
@@ -497,6 +499,94 @@ theorem C15_failed_sample_source {Req : Type} (scName : String) (st : Step ReqDe
 /-- the weights `decodeAmmo` refuses (regenerated condition) are the negative ones of `C15_negative_weight_refused` -/
 theorem C15_refused_source (w : Int) : Gen.C15Scen.weightRefused w ↔ w < 0 := Iff.rfl
 
+/-! ## the step loop, the decoder and pandora's own postprocessors — for the code as it is (area `c15flow`) -/
+
+/-- **`shootStep` / `shoot` as regenerated**: `Gen.C15Flow.stepCode` is the instruction list /verif/gen extracts from
+`shootStep` (initVars, preprocessor + check + store, template + check, prepareRequest + check, send + check, read body +
+check, the postprocessor loop [call, check, merge, rewind, check], store, set code, report, pause) and
+`Gen.C15Flow.onStepErr` the error branch of the loop of `shoot` (reportErr, return). Interpreted literally — a
+fallible statement only ASSIGNS `err`, only a check looks at it — on any `World`, they compute exactly the model's
+`shoot`, about which the stop-on-failure / variable-flow theorems above speak. -/
+theorem C15_shoot_code_source {Req Resp : Type} (w : World Req Resp) (source : Val) (sc : Scenario ReqDef) (g : GState Req) :
+    runShootCode w source (String.ofList sc.name) Gen.C15Flow.stepCode Gen.C15Flow.onStepErr sc.steps [] g true =
+      shoot w source sc g := by
+  rw [Bridge.C15Flow.stepCode_eq, Bridge.C15Flow.onStepErr_eq]
+  exact runShootCode_eq w source (String.ofList sc.name) sc.steps [] g
+
+/-- hence the regenerated code, interpreted, passes the executable judge of the correspondence run on every `World` -/
+theorem C15_shoot_code_verdict {Req Resp : Type} (w : World Req Resp) (nm : Req → String) (hnm : Named w nm) (source : Val)
+    (sc : Scenario ReqDef) (g : GState Req) (b : Bool) (g' : GState Req)
+    (h : runShootCode w source (String.ofList sc.name) Gen.C15Flow.stepCode Gen.C15Flow.onStepErr sc.steps [] g true =
+      some (b, g')) :
+    ∃ evs, obsLog nm g'.log = obsLog nm g.log ++ evs ∧
+      shotVerdict (String.ofList sc.name) (sc.steps.map (·.req.name)) evs = "ok" := by
+  rw [C15_shoot_code_source] at h
+  exact C15_shot_verdict w nm hnm source sc g b g' h
+
+/-- `requestVars` is created once per shot, before the loop (regenerated), and the mapping loop of
+`Preprocessor.Process` resolves an entry, returns on its error, stores it — in this order -/
+theorem C15_vars_per_shot_source : Gen.C15Flow.requestVarsPerShot = true ∧
+    Gen.C15Flow.preLoopCode = ["resolve", "chk", "store"] :=
+  ⟨Bridge.C15Flow.requestVarsPerShot_eq, Bridge.C15Flow.preLoopCode_eq⟩
+
+/-- **`ParseShootName` and the loop body of `convertScenarioToAmmo` as regenerated** (defaults `cnt = 1`, `sleep = 0`, the
+guards `len(args) > k && args[k] != ""`, the argument positions, the order of the results; the `sleep` branch with its
+refusal of an empty step list and `Requests[len-1].Sleep +=`, the lookup, `if sleep > 0 { r.Sleep += … }`, the copy loop
+`for i := 0; i < cnt; i++`; durations in ms) are the model's `parseShootName` and `expandItem`: the decoder the
+order / multiplicity theorems speak about is the loop over the regenerated body. -/
+theorem C15_expand_source {ρ} (reqs : List Char → Option ρ) (sh : List Char) (rest : List (List Char)) (acc : List (Step ρ)) :
+    (Gen.C15Flow.convShoot atoi reqs sh acc =
+      match parseShootName sh with
+      | .error _ => .err "parse"
+      | .ok it => expandItem reqs acc it) ∧
+    expand reqs (sh :: rest) acc =
+      match Gen.C15Flow.convShoot atoi reqs sh acc with
+      | .ok acc' => expand reqs rest acc'
+      | .err e => .err e
+      | .panic p => .panic p :=
+  ⟨Bridge.C15Flow.convShoot_eq reqs sh acc, Bridge.C15Flow.expand_gen reqs sh rest acc⟩
+
+/-- `decodeAmmo` appends a scenario to the ring as often as `SpreadNames` counted it (regenerated copy loop) -/
+theorem C15_ring_copies_source (ns : Int) : (Gen.C15Flow.ringCopies ns).toNat = ns.toNat :=
+  Bridge.C15Flow.ringCopies_eq ns
+
+/-- **indexing as regenerated from `calcIndex`**: over a non-empty list a numeric index — any integer — selects an
+existing row (the regenerated arithmetic stays in `[0, L)`), and that row is what the model's `calcIndex` returns;
+`[last]` is row `L - 1`; an empty list is refused (the regenerated guard) -/
+theorem C15_index_source (i : Int) (L : Nat) (hL : 0 < L) :
+    (0 ≤ Gen.C15Flow.idxNumeric i L ∧ Gen.C15Flow.idxNumeric i L < L) ∧
+    (∀ (indexStr seg : String) (id : Nat) (it : Iter), atoi indexStr.toList = some i → indexStr ≠ "last" →
+      indexStr ≠ "rand" → indexStr ≠ "next" →
+      calcIndex indexStr seg L id it = .ok ((Gen.C15Flow.idxNumeric i L).toNat, it)) ∧
+    Gen.C15Flow.idxLast (L : Int) = ((L - 1 : Nat) : Int) ∧
+    (Gen.C15Flow.idxEmptyRefused ((0 : Nat) : Int) ∧ ¬ Gen.C15Flow.idxEmptyRefused (L : Int)) := by
+  refine ⟨Bridge.C15Flow.idxNumeric_range i L hL, ?_, Bridge.C15Flow.idxLast_eq L hL, ?_, ?_⟩
+  · intro indexStr seg id it hi h1 h2 h3
+    exact Bridge.C15Flow.calcIndex_numeric indexStr seg L id it i hL hi h1 h2 h3
+  · exact (Bridge.C15Flow.idxEmptyRefused_iff 0).mpr rfl
+  · intro c
+    have := (Bridge.C15Flow.idxEmptyRefused_iff L).mp c
+    omega
+
+/-- **assert/response as regenerated**: the size table, the status condition, the set of checks and WHEN the body is read
+(`len(a.Body) > 0 || a.Size != nil`: the repaired condition) are the ones of the model of `C15_assert_outcome` -/
+theorem C15_assert_source (a : AssertCfg) (op : String) (val len want got : Int) :
+    Gen.C15Flow.assertSizeFails op val len = sizeFails op val len ∧
+    (Gen.C15Flow.assertReadsBody (a.body.length : Int) (a.size.isSome = true) ↔ readsBody a = true) ∧
+    (¬ Gen.C15Flow.assertStatusFails want got ↔ (want = 0 ∨ want = got)) ∧
+    Gen.C15Flow.assertChecks = ["body", "headers", "status", "size"] :=
+  ⟨Bridge.C15Flow.assertSizeFails_eq op val len, Bridge.C15Flow.assertReadsBody_iff a,
+   Bridge.C15Flow.assertStatusFails_iff want got, Bridge.C15Flow.assertChecks_eq⟩
+
+/-- the index arithmetic of the `substr` modifier as regenerated from `var_header.go` is the model's, hence in range -/
+theorem C15_substr_source (start stop l : Int) (hl : 0 ≤ l) :
+    Gen.C15Flow.substrBounds start stop l = substrBounds start stop l ∧
+    0 ≤ (Gen.C15Flow.substrBounds start stop l).1 ∧
+    (Gen.C15Flow.substrBounds start stop l).1 ≤ (Gen.C15Flow.substrBounds start stop l).2 ∧
+    (Gen.C15Flow.substrBounds start stop l).2 ≤ l := by
+  rw [Bridge.C15Flow.substrBounds_eq]
+  exact ⟨rfl, substrBounds_range start stop l hl⟩
+
 /-! ## non-vacuity: concrete inputs meeting the hypotheses of every theorem -/
 
 section Examples
@@ -596,6 +686,42 @@ example : (varHeader [("h", "x-tok|lower|substr(1,-1)|replace(0,zz)".toList), ("
       (fun vs => vs.map fun kv => (kv.1, match kv.2 with | .str s => s | _ => "?")) = some [("h", "zzx")] ∧
     (varHeader [("h", "x-tok|nosuch".toList)] exResp).toOption.isNone = true ∧ substrBounds (-1) 0 4 = (3, 4) ∧
     substrBounds 7 (-9) 4 = (0, 4) := by decide
+
+-- C15_shoot_code_source: the interpreter is NOT blind. A world whose first extractor (id 0) fails and whose second
+-- (id 1) passes; `b2` has both. With the code of the repository the step is reported failed; with the check moved behind
+-- the loop (only the LAST extractor's error survives) it is reported successful; a loop that does not return on an error
+-- goes on to the next step; a send whose error is not checked leaves the model (a nil response is used)
+def exWorld2 : World String Nat where
+  render := fun d _ => some d.name
+  target := fun _ => some 200
+  post := fun id _ => if id == 0 then none else some []
+  code := fun r => r
+def exSc2 : Scenario ReqDef :=
+  { name := "s".toList, minWaitingTime := 0,
+    steps := [{ name := "b2".toList, req := { name := "b2", pre := none, iter := 0, posts := [0, 1] }, sleep := 0 },
+              { name := "c".toList, req := { name := "c", pre := none, iter := 0, posts := [] }, sleep := 0 }] }
+def lateCheck : List SOp :=
+  [.initVars, .pre, .chk, .storePre, .template, .chk, .prepare, .chk, .send, .chk, .readBody, .chk,
+   .posts [.call, .merge, .rewind], .chk, .storePost, .setCode, .report, .pause]
+example : ((runShootCode exWorld2 (.map []) "s" Gen.C15Flow.stepCode Gen.C15Flow.onStepErr exSc2.steps [] exG true).map
+      fun r => (r.1, r.2.log)) = some (false, [.request "b2", .sample "s.b2|__EMPTY__" 0 true]) ∧
+    ((runShootCode exWorld2 (.map []) "s" lateCheck onStepErr exSc2.steps [] exG true).map fun r => (r.1, r.2.log)) =
+      some (true, [.request "b2", .sample "s.b2" 200 false, .request "c", .sample "s.c" 200 false]) ∧
+    ((runShootCode exWorld2 (.map []) "s" stepCode [.reportErr] exSc2.steps [] exG true).map fun r => (r.1, r.2.log)) =
+      some (false, [.request "b2", .sample "s.b2|__EMPTY__" 0 true, .request "c", .sample "s.c" 200 false]) ∧
+    ((runShootCode (exWorld 1) (.map []) "s" (stepCode.eraseIdx 9) onStepErr exSc.steps [] exG true).isNone = true) := by
+  decide
+
+-- C15_expand_source / C15_index_source / C15_assert_source / C15_substr_source on concrete values
+example : Gen.C15Flow.parseShoot atoi "a( 2 , 3 )".toList = .ok ("a".toList, 2, 3) ∧
+    Gen.C15Flow.parseShoot atoi "a(,5)".toList = .ok ("a".toList, 1, 5) ∧
+    Gen.C15Flow.parseShoot atoi "a(x)".toList = .err "parse" ∧
+    (Gen.C15Flow.convShoot atoi exReqs "sleep(7)".toList [{ name := "a".toList, req := (), sleep := 1 }]).bind
+      (fun s => .ok (s.map proj)) = .ok [("a".toList, 8)] ∧
+    Gen.C15Flow.convShoot atoi exReqs "sleep(7)".toList [] = .err "sleepfirst" ∧
+    Gen.C15Flow.idxNumeric (-1) 5 = 4 ∧ Gen.C15Flow.idxNumeric 12 5 = 2 ∧ Gen.C15Flow.idxNumeric 3 5 = 3 ∧
+    Gen.C15Flow.assertSizeFails "lt" 7 20 = some true ∧ Gen.C15Flow.assertSizeFails ">" 7 20 = some false ∧
+    Gen.C15Flow.assertSizeFails "ge" 7 20 = none ∧ Gen.C15Flow.substrBounds 1 (-1) 4 = (1, 3) := by decide
 
 -- C15_step_outcome / C15_stop_first_failure: in `exWorld 2` the first step succeeds and the second does not
 example : StepSucceeds (exWorld 2) (.map []) exSc.steps[0] [] exG :=
